@@ -88,6 +88,30 @@ def main():
             except Exception as e:  # a crashing rule must not pass silently
                 R.bad(rule_name, c, "-", "engine", "rule crashed: %s: %s" % (type(e).__name__, e))
                 rule_errors.append(traceback.format_exc())
+    canary_info = {"status": "none"}
+    try:
+        import canary
+        canary_info = canary.run(args.repo, prop, R)
+    except Exception as e:
+        R.bad("CANARY", "-", "-", "engine", "canary crashed: %s: %s" % (type(e).__name__, e))
+        rule_errors.append(traceback.format_exc())
+    witness_out = None
+    if tier == "thorough":
+        try:
+            import witness
+            witness_out = witness.run(args.repo, R, prop)
+        except Exception as e:
+            R.bad("W-WITNESS", "-", "-", "engine", "witness run crashed: %s: %s" % (type(e).__name__, e))
+            rule_errors.append(traceback.format_exc())
+    corpus_rows = []
+    if tier == "thorough":
+        try:
+            import mutants
+            corpus_rows = mutants.corpus(prop, args.repo)
+            for name, pid, kind, verdict, detail in corpus_rows:
+                print("  E6 %-30s %-7s %-11s %s" % (name, kind, verdict, detail[-110:]))
+        except Exception as e:
+            rule_errors.append(traceback.format_exc())
     if tier == "thorough" and spec.get("thorough"):
         for name, fn in spec["thorough"]:
             try:
@@ -143,11 +167,12 @@ def main():
         print("VIOLATION property=%s replay=%s" % (prop, replay_path))
 
     if not args.no_evidence:
-        write_evidence(prop, tier, seed, spec, configs, facts, xinfo, R, viol, known_hit, time.time() - t0)
+        write_evidence(prop, tier, seed, spec, configs, facts, xinfo, R, viol, known_hit, time.time() - t0,
+                       canary_info, corpus_rows)
     return 1 if viol else 0
 
 
-def write_evidence(prop, tier, seed, spec, configs, facts, xinfo, R, viol, known_hit, wall):
+def write_evidence(prop, tier, seed, spec, configs, facts, xinfo, R, viol, known_hit, wall, canary_info=None, corpus_rows=()):
     os.makedirs(os.path.join(VERIF, "evidence"), exist_ok=True)
     keys = sorted(set(i["key"] for i in R.instances))
     samples = []
@@ -191,6 +216,8 @@ def write_evidence(prop, tier, seed, spec, configs, facts, xinfo, R, viol, known
             "floors": {"%s/%s" % k: v[0] for k, v in R.floors.items()},
             "configs_analysed": analysed,
             "not_decided": spec.get("not_decided", []),
+            "canary": canary_info,
+            "seeded_corpus": [{"name": r[0], "kind": r[2], "verdict": r[3], "first_instance": r[4]} for r in corpus_rows],
             "checker_cmd": "bin/vpcheck %s --tier %s" % (prop, tier),
             "trusted_base": [
                 "rustc nightly MIR construction and trait resolution (type-checked program)",
